@@ -1,7 +1,8 @@
 """C19: prediction layers turn any tensor into a normalised, consistent grammar.
 
 Discrete part (layout of the layer, encoder, derivations, membership): compared
-exactly with the extracted Coq model (NN/Encode.v).  Numeric part: the closed
+exactly with the extracted Coq model (NN/Encode.v; NN/EncodeU.v for U layers on
+unambiguous rule tables with several alternatives and start symbols).  Numeric part: the closed
 forms proved over the reals in NN/PredictProofs.v (C19_closed_form,
 C19_normalised, C19_variable_mass, C19_logprob...) are evaluated here in
 60-digit decimal arithmetic from the model's discrete answer and compared with
@@ -20,35 +21,67 @@ getcontext().prec = 60
 
 ID = "C19"
 IMPL_MODULE = "props.c19_impl"
+MODEL_AFTER_IMPL = True     # "udfta" cases: the model is run on the rule tables the implementation built
 HASHSEEDS = {"quick": [0, 1], "thorough": [0, 1, 2, 3]}
 CASE_TIMEOUT = 60
 EPS = Decimal(1) / Decimal(10 ** 7)
 UNDERFLOW_GAP = 746        # exp(-745.14) is the last float64 exp() that does not round to 0
 TINY = 1e-280
 
-RULE = ("layers (DetGrammarPredictorLayer on CFG.depth_constraint, UGrammarPredictorLayer on UCFG.depth_constraint) over "
+RULE = ("(A) layers (DetGrammarPredictorLayer on CFG.depth_constraint, UGrammarPredictorLayer on UCFG.depth_constraint) over "
         "1-3 grammars of one random abstract DSL (families F1-F6 of lib/dsls.py: 1-3 base types, arities 0-3, higher-order "
         "arguments, function-typed variables, list types, forbidden patterns) with distinct type requests sharing "
         "abstractions, max_depth 2-3 (4 in the thorough tier), min_variable_depth 0-2, n_gram 1-3, random constant types; "
-        "abstraction in {primitive_presence, cfg_bigram_without_depth, ttcfg_bigram, ucfg_bigram, identity}; variable "
-        "probability in {0.05, 0.2, 0.9}; total_variable_order on/off; per layer one case per tensor: standard normal, "
+        "abstraction in {primitive_presence, cfg_bigram_without_depth, ttcfg_bigram, ucfg_bigram, identity}.  "
+        "(B) UGrammarPredictorLayer on unambiguous grammars with SEVERAL ALTERNATIVES per (non-terminal, primitive) and "
+        "1-3 START SYMBOLS: (B1) hand-built UCFG(starts, rules, clean=True/False), 1-2 grammars per layer, whose tables are "
+        "random trimmed acyclic deterministic bottom-up tree automata (1-2 types, 1-3 function letters of arity 1-3, 0-2 "
+        "variables, sometimes a function-typed variable applied to 1-2 arguments (several alternatives of a VARIABLE), "
+        "optional constant slot, 2-3 levels, typically 2-10 alternatives of one primitive at a non-terminal) written "
+        "as rule tables with states int, (int, int), or (NGram(2), int) expanded top-down like from_DFTA_with_ngrams; "
+        "abstraction in {primitive_presence, identity} and ucfg_bigram on the NGram states; (B2) UCFG.from_DFTA and "
+        "UCFG.from_DFTA_with_ngrams(., 2) of add_dfta_constraints(CFG.depth_constraint(dsl, request, depth 2-3), [constraint]) "
+        "for first-order random DSLs (F1, F2, F5) and a constraint '(f c _ ..)' as in C04, 1-2 type requests per layer: the "
+        "model runs on the rule tables serialised by the implementation runner; corpus: the grammar S -> + | C0 V1 | V0 C1.  "
+        "All: variable probability in {0.05, 0.2, 0.9}; total_variable_order on/off; per layer one case per tensor: "
+        "standard normal, "
         "normal x5, all-equal, +-50, +-500, uniform [-100,100], one dominant entry (+50, +500), dominant entry on a rule that "
         "is NOT derivable at some non-terminal of its slice (+50, +500 over a normal background; +500 over a -500 "
-        "background); start entries of U layers: normal, +-50, +-500, +-800.  Observables: layout (keys, primitives per key, contiguous slices, sizes, forward size), "
-        "non-terminals with their abstraction and rules, type request, every converted weight against the closed form, "
+        "background); start entries of U layers: normal, +-50, +-500, +-800.  Observables: layout (keys, primitives per key "
+        "- one entry per primitive whatever the number of its alternatives -, contiguous slices, sizes, forward size), "
+        "non-terminals with their abstraction and rules, type request, every converted weight of every (symbol, alternative) "
+        "against the closed form (normaliser = one term per (primitive, alternative)), "
         "sum, positivity, variable+constant mass, the multiset of variable/constant weights at 4e-8 absolute (epsilon "
-        "trick), start probabilities, membership, encode(p), exp(log_probability(p)) against probability(p) and against "
-        "the product of closed forms, for up to 25 candidate programs per grammar.  Non-trivial = at least two "
-        "abstraction keys or a non-terminal with variables, and at least one candidate program in the grammar.")
+        "trick), start probabilities (softmax of the start entries over the grammar's start symbols), membership, encode(p), "
+        "exp(log_probability(p)) against probability(p) and against "
+        "the start probability times the product of closed forms along the derivation the model computes, and in (B) also "
+        "log_probability(p, start) / probability(p, start) for the deriving start symbol, for up to 25 candidate programs "
+        "per grammar.  Non-trivial = (A) at least two "
+        "abstraction keys or a non-terminal with variables, (B) a symbol with >= 2 alternatives at some non-terminal or "
+        ">= 2 start symbols; and at least one candidate program in the grammar.")
 ASSUMPTIONS = [
     "the theorems are over exact reals; float32 (torch) / float64 (numpy) rounding is measured by this check, not proved: "
     "relative tolerance per weight 1e-4 + 3 float32 ulps of the largest |log-softmax| value of the slice",
     "a weight whose exact value is below 1e-280 is only required to be >= 0 and <= 1e-280 (not representable as a positive float64 product)",
-    "U layers are exercised on UCFG.depth_constraint grammars (one alternative per rule, one start symbol); the real-number "
-    "model covers several alternatives (one logit entry per alternative) but the correspondence does not drive them",
+    "U layers are driven on UCFG.depth_constraint grammars (one alternative per rule, one start symbol) and on unambiguous "
+    "grammars with several alternatives per rule and several start symbols (hand-built UCFG tables; UCFG.from_DFTA / "
+    "from_DFTA_with_ngrams of sharpened automata, whose tables are taken from the implementation: sharpening and the "
+    "DFTA -> UCFG conversion themselves are the subject of C05 / C06, not of this check)",
+    "grammars are unambiguous: a candidate program for which the model finds more than one derivation over all start "
+    "symbols is skipped (hand-built tables are unambiguous by construction: deterministic bottom-up automata); all start "
+    "symbols of a grammar have the same type",
+    "variables and constants share the variable mass uniformly over their (symbol, alternative) entries: nv / nc of the "
+    "real-number model count the tagged derivations of variables / constants (a function-typed variable can have several); "
+    "the pinned tree divides by the number of symbols instead - known finding c19_variable_alternatives_mass, proposed fix C19b-2",
+    "log_probability(p) is specified with the start symbol's log-probability included (as ProbUGrammar.probability "
+    "includes its probability): the pinned tree leaves it out - known finding c19_logprob_ignores_start, proposed fix "
+    "C19b-1; log_probability(p, start) / probability(p, start) are compared independently of that",
     "grammars of one layer have pairwise distinct type requests (the layer indexes grammars by type request); a UCFG reports "
     "the request rebuilt from the variables that occur in it (unused arguments dropped): U layers are addressed with that "
     "reported request and configurations where two of them coincide are not generated",
+    "function-typed arguments with the same index have the same type in all the grammars of one layer (Variable equality "
+    "ignores the type: the implementation merges their (variable, argument number) contexts into one abstraction key, a "
+    "coarser abstraction than the one modelled; such configurations are not generated)",
     "tensor entries are float32 values of magnitude <= 500 (start entries <= 800)",
     "n_gram < 2 is only used without forbidden patterns (known finding c01_ngram1_forbidden of C01)",
     "types are ground, without sums; DSL primitives have pairwise distinct names",
@@ -72,7 +105,7 @@ def parse_model(raw):
           "start_keys": start_keys, "u_size": u_size, "grammars": []}
     for g in gs:
         start, skey, sidx, nts, progs = g
-        G = {"start": start, "start_key": skey, "start_index": sidx,
+        G = {"starts": [{"nt": start, "key": skey, "index": sidx}],
              "nts": [{"nt": n[0], "key": n[1], "rules": n[2]} for n in nts], "progs": []}
         for p in progs:
             if not p:
@@ -80,21 +113,62 @@ def parse_model(raw):
             elif p == [-3]:
                 G["progs"].append({"error": "model: member without derivation"})
             else:
-                G["progs"].append({"marks": sorted(set(p[0])), "deriv": p[1]})
+                G["progs"].append({"marks": sorted(set(p[0])), "deriv": p[1], "start": 0})
         mo["grammars"].append(G)
     return mo
 
 
-def tensor_tables(case):
-    pv = {jkey([k, p]): v for k, p, v in case["tensor"]["pairs"]}
-    sv = {jkey(k): v for k, v in case["tensor"]["starts"]}
+def parse_model_multi(raw):
+    """Answer of entry 2 (U layer on unambiguous rule tables): the rules of a
+    non-terminal are its (symbol, alternative) entries [symbol, index, alternative]."""
+    slices, out_size, start_keys, u_size, gs = raw
+    mo = {"slices": [[s[0], s[1], s[2], s[3]] for s in slices], "out_size": out_size,
+          "start_keys": start_keys, "u_size": u_size, "grammars": [], "multi": 1}
+    for g in gs:
+        starts, nts, progs = g
+        G = {"starts": [{"nt": s_[0], "key": s_[1], "index": s_[2]} for s_ in starts],
+             "nts": [{"nt": n[0], "key": n[1], "rules": n[2]} for n in nts], "progs": []}
+        for p in progs:
+            if not p:
+                G["progs"].append(None)
+            elif p[3] == -3:
+                G["progs"].append({"error": "model: member without derivation"})
+            elif p[0] != 1:
+                G["progs"].append({"ambiguous": p[0]})      # outside the domain: the grammar is not unambiguous
+            else:
+                G["progs"].append({"marks": sorted(set(p[2])), "deriv": p[3], "start": p[1]})
+        mo["grammars"].append(G)
+    return mo
+
+
+def is_multi(case):
+    return bool(case.get("gk"))
+
+
+def case_tensor(case, io=None):
+    """The tensor of the case; for a recipe (the layout is only known to the
+    implementation runner) the values the runner drew from the recipe's seed."""
+    t = case["tensor"]
+    if "recipe" in t:
+        if isinstance(io, dict) and isinstance(io.get("tensor"), dict):
+            return io["tensor"]
+        return {"pairs": [], "starts": []}
+    return t
+
+
+def tensor_tables(case, tensor=None):
+    tensor = tensor if tensor is not None else case_tensor(case)
+    pv = {jkey([k, p]): v for k, p, v in tensor["pairs"]}
+    sv = {jkey(k): v for k, v in tensor["starts"]}
     return pv, sv
 
 
-def closed_forms(case, mo):
-    """Adds to the parsed model answer the closed forms of C19_closed_form etc.,
-    evaluated in decimal arithmetic with the tensor of the case."""
-    pv, sv = tensor_tables(case)
+def closed_forms(case, mo, tensor=None):
+    """Adds to the parsed model answer the closed forms of C19_closed_form,
+    C19_closed_form_alts, C19_start_softmax, C19_logprob_multi etc., evaluated
+    in decimal arithmetic with the tensor of the case."""
+    pv, sv = tensor_tables(case, tensor)
+    mo["tensor"] = tensor if tensor is not None else case_tensor(case)
     v = Decimal(repr(case["v"]))
     tvo = bool(case["tvo"])
     isu = bool(case["u"])
@@ -112,7 +186,8 @@ def closed_forms(case, mo):
             kk = jkey(N["key"])
             xs = []       # logits of the derivable primitive rules, None for variables / constants
             nv = nc = 0
-            for sym, idx in N["rules"]:
+            for r in N["rules"]:         # one entry per rule (entry 1) or per (rule, alternative) (entry 2)
+                sym = r[0]
                 if sym[0] == 0:
                     xs.append(Decimal(pv.get(jkey([N["key"], sym]), 0.0)))
                 else:
@@ -159,12 +234,36 @@ def closed_forms(case, mo):
             N["_vcmin"] = (p0 - nv * eps) / norm if has_vc else None
             N["_p0"] = p0 / norm
             N["_norm"] = norm
-        # programs: product of the weights along the derivation
+            # The pinned tree divides the variable mass by the number of variable / constant SYMBOLS but tags every
+            # (symbol, alternative) entry (known finding c19_variable_alternatives_mass): its weights, for the classifier
+            nsym = len({jkey(r[0]) for r in N["rules"] if r[0][0] != 0})
+            N["affected"] = 1 if (isu and nsym < nv + nc) else 0
+            if N["affected"]:
+                q0 = vmass / nsym
+                vcu = [q0 - k * eps for k in range(nv)] + [q0 - nv * eps] * nc
+                T = (pmass if prim else Decimal(0)) + sum(vcu)
+                N["w_pin"] = [float(w * norm / T) if w is not None else None for w in ws]
+                N["vc_pin"] = sorted(float(w / T) for w in vcu)
+                N["_wpin"] = [w * norm / T if w is not None else None for w in ws]
+                N["_q0"] = q0
+                N["_T"] = T
+        # start symbols: softmax of the start entries selected for the grammar (C19_start_softmax)
+        zs = [Decimal(sv.get(jkey(s_["key"]), 0.0)) for s_ in G["starts"]]
+        zm = max(zs)
+        es0 = [(z - zm).exp() for z in zs]
+        Zs = sum(es0)
+        sprobs = [e / Zs for e in es0]
+        G["start_probs"] = [float(x) for x in sprobs]
+        smag = max(abs(z - zm - Zs.ln()) for z in zs)
+        G["start_tol"] = 1e-4 + 3 * 2.0 ** -23 * float(smag)
+        # programs: start probability times the product of the weights along the derivation
         for pr in G["progs"]:
             if not pr or "deriv" not in pr:
                 continue
             pconv = Decimal(1)
             punn = Decimal(1)
+            qconv = Decimal(1)      # the same products with the pinned weights of the affected non-terminals
+            qunn = Decimal(1)
             tol = 0.0
             ok = True
             visited = []
@@ -182,17 +281,30 @@ def closed_forms(case, mo):
                 pconv *= w
                 punn *= w * N["_norm"]
                 tol += N["tol"]
+                if N.get("affected"):
+                    wq = N["_wpin"][ri]
+                    qconv *= wq if wq is not None else N["_q0"] / N["_T"]
+                    qunn *= wq * N["_T"] if wq is not None else N["_q0"]
+                else:
+                    qconv *= w
+                    qunn *= w * N["_norm"]
             pr["visited"] = visited
             if ok:
-                pr["prob"] = float(pconv)
-                pr["exp_logp"] = float(punn)
+                sp = sprobs[pr["start"]]
+                if any(G["nts"][ni].get("affected") for ni in visited):
+                    pr["pinned"] = {"prob": float(sp * qconv), "exp_logp": float(sp * qunn), "prob_at": float(qconv),
+                                    "exp_logp_at": float(qunn)}
+                pr["prob"] = float(sp * pconv)                # probability(p)
+                pr["exp_logp"] = float(sp * punn)             # exp(log_probability(p)), start tag included
+                pr["prob_at"] = float(pconv)                  # probability(p, start)
+                pr["exp_logp_at"] = float(punn)               # exp(log_probability(p, start))
                 lnp = abs(float(punn.ln())) if punn > 0 else 0.0
-                pr["tol"] = tol + len(visited) * 2.0 ** -22 * lnp + 1e-6
-        # one start symbol per grammar (CFG, UCFG.from_CFG): its probability is exp(z) / exp(z) = 1
-        G["start_probs"] = [1.0]
+                pr["tol_at"] = tol + len(visited) * 2.0 ** -22 * lnp + 1e-6
+                lns = abs(float(sp.ln())) if sp > 0 else 0.0
+                pr["tol"] = pr["tol_at"] + ((G["start_tol"] + 2.0 ** -22 * (lnp + lns)) if len(zs) > 1 else 0.0)
     for G in mo["grammars"]:
         for N in G["nts"]:
-            for k in ("_wdec", "_vcmin", "_p0", "_norm"):
+            for k in ("_wdec", "_vcmin", "_p0", "_norm", "_wpin", "_q0", "_T"):
                 N.pop(k, None)
     return mo
 
@@ -291,7 +403,7 @@ def non_derivable_choices(mo):
     out = []
     for G in mo["grammars"]:
         for N in G["nts"]:
-            der = [jkey(sym) for sym, idx in N["rules"] if sym[0] == 0]
+            der = [jkey(r[0]) for r in N["rules"] if r[0][0] == 0]
             if not der:
                 continue
             for p in by_key[jkey(N["key"])]:
@@ -302,6 +414,13 @@ def non_derivable_choices(mo):
 
 def gen_tensor(rng, kind, mo):
     pairs = [[s[0], p] for s in mo["slices"] for p in s[3]]
+    return gen_tensor_lists(rng, kind, pairs, non_derivable_choices(mo), mo["start_keys"])
+
+
+def gen_tensor_lists(rng, kind, pairs, nd, start_keys):
+    """pairs: the (key, primitive) pairs of the layer; nd: the pairs that are not
+    derivable at some non-terminal of their slice; start_keys: the start
+    abstractions.  Also called by the implementation runner for "recipe" tensors."""
     n = len(pairs)
     vals = [0.0] * n
     if kind == "normal":
@@ -322,7 +441,6 @@ def gen_tensor(rng, kind, mo):
         if n:
             vals[rng.randrange(n)] = 50.0 if kind == "dominant50" else 500.0
     else:
-        nd = non_derivable_choices(mo)
         if kind == "nonderivable_pm500":
             vals = [-500.0] * n
             big = 500.0
@@ -337,7 +455,7 @@ def gen_tensor(rng, kind, mo):
         elif n:
             vals[rng.randrange(n)] = big
     starts = [[k, f32(rng.choice([rng.gauss(0, 1), rng.gauss(0, 1), 50.0, -50.0, 500.0, -500.0, 800.0, -800.0]))]
-              for k in mo["start_keys"]]
+              for k in start_keys]
     return {"pairs": [[pr[0], pr[1], f32(v)] for pr, v in zip(pairs, vals)], "starts": starts}
 
 
@@ -345,9 +463,14 @@ def guessed_request(G, request):
     """UGrammar._guess_type_request_: the request as rebuilt from the variables
     that occur in the grammar (arguments that are not used are dropped)."""
     _, ret = D.arrow_parts(request)
+    return guessed_request_from(G, ret)
+
+
+def guessed_request_from(G, ret):
     vs = []
     for N in G["nts"]:
-        for sym, _ in N["rules"]:
+        for r in N["rules"]:
+            sym = r[0]
             if sym[0] == 1 and [sym[1], sym[2]] not in vs:
                 vs.append([sym[1], sym[2]])
     t = ret
@@ -366,7 +489,26 @@ def in_domain(mo):
     return all(G["nts"] and all(N["rules"] for N in G["nts"]) for G in mo["grammars"])
 
 
+def variable_conflict(case):
+    """Two grammars of the layer have a function-typed argument with the same
+    index and different types.  Variable.__eq__ ignores the type, so the
+    implementation merges their (variable, argument number) contexts into one
+    abstraction key where the model keeps two: a coarser abstraction, which the
+    property allows, but not the layout the model computes."""
+    seen = {}
+    for g in case["data"][0]:
+        args, _ = D.arrow_parts(g[2])
+        for i, t in enumerate(args):
+            if t[0] == 1:
+                if i in seen and seen[i] != t:
+                    return True
+                seen.setdefault(i, t)
+    return False
+
+
 def usable(case, mo):
+    if variable_conflict(case):
+        return False
     if case["u"]:
         # the U layer indexes its grammars by the guessed request: keep them distinct
         gs = [jkey(guessed_request(G, g[2])) for G, g in zip(mo["grammars"], case["data"][0])]
@@ -374,6 +516,298 @@ def usable(case, mo):
             return False
     if not in_domain(mo):
         return False
+    total = sum(len(G["nts"]) for G in mo["grammars"])
+    return 0 < total <= 160 and mo["out_size"] <= 400
+
+
+# ----------------------------------------------------------------------------
+# unambiguous grammars with several alternatives per rule and several start
+# symbols: (a) hand-built tables = random trimmed acyclic deterministic
+# bottom-up tree automata turned into rule tables the way UCFG.from_DFTA /
+# from_DFTA_with_ngrams do (one derivation per program by construction),
+# (b) "udfta": UCFG.from_DFTA[_with_ngrams](add_dfta_constraints(cfg, [c]))
+# ----------------------------------------------------------------------------
+T0, T1 = S.INT, S.BOOL
+
+
+def gen_automaton(rng, nvars):
+    """Returns (states, leaf_of, trans, finals): states = list of types,
+    leaf_of = {json(symbol): state}, trans = list of [symbol, [arg states], state]."""
+    types = [T0] if rng.random() < 0.5 else [T0, T1]
+    pid = [100]
+
+    def prim(t):
+        pid[0] += 1
+        return [0, pid[0] - 1, t]
+
+    leaves = [prim(T0) for _ in range(rng.randint(1, 3))]
+    if len(types) > 1:
+        leaves += [prim(T1) for _ in range(rng.randint(1, 2))]
+    for i in range(nvars):
+        leaves.append([1, i, rng.choice(types)])
+    if rng.random() < 0.3:
+        leaves.append([2, rng.choice(types)])
+    funs = []
+    for _ in range(rng.randint(1, 3)):
+        ar = rng.choice([1, 2, 2, 2, 3])
+        args = [rng.choice(types) for _ in range(ar)]
+        funs.append(prim(S.ARROW(*args, T0 if rng.random() < 0.8 else rng.choice(types))))
+    if rng.random() < 0.35:
+        # a function-typed variable (higher-order request): applied like a function letter, tagged like a variable
+        args = [rng.choice(types) for _ in range(rng.choice([1, 1, 2]))]
+        funs.append([1, nvars, S.ARROW(*args, T0)])
+    states = []                 # type of each state
+    level = []
+    leaf_of = {}
+    for t in types:
+        ls = [l for l in leaves if (l[2] if l[0] != 2 else l[1]) == t]
+        if not ls:
+            continue
+        k = rng.randint(1, min(2, len(ls)))
+        ids = []
+        for _ in range(k):
+            ids.append(len(states))
+            states.append(t)
+            level.append(0)
+        for l in ls:
+            leaf_of[jkey(l)] = rng.choice(ids)
+    trans = []
+    nlev = rng.choice([1, 2, 2])
+    for lvl in range(1, nlev + 1):
+        new = {}
+        for f in funs:
+            args, ret = D.arrow_parts(f[2])
+            new.setdefault(jkey(ret), [])
+        for rt in new:
+            for _ in range(rng.randint(1, 2)):
+                new[rt].append(len(states))
+                states.append(json.loads(rt))
+                level.append(lvl)
+        for f in funs:
+            args, ret = D.arrow_parts(f[2])
+            tuples = [[]]
+            for a in args:
+                cands = [q for q in range(len(states)) if states[q] == a and level[q] < lvl]
+                tuples = [t_ + [q] for t_ in tuples for q in cands]
+                if len(tuples) > 40:
+                    tuples = rng.sample(tuples, 40)
+            tuples = [t_ for t_ in tuples if t_ and max(level[q] for q in t_) == lvl - 1]
+            if len(tuples) > 8:
+                tuples = rng.sample(tuples, 8)
+            for t_ in tuples:
+                if rng.random() < 0.8:
+                    trans.append([f, t_, rng.choice(new[jkey(ret)])])
+    tops = [q for q in range(len(states)) if states[q] == T0]
+    tops.sort(key=lambda q: -level[q])
+    nst = rng.choice([1, 2, 2, 3])
+    finals = tops[:nst] if rng.random() < 0.7 else rng.sample(tops, min(nst, len(tops)))
+    return states, leaf_of, trans, sorted(set(finals))
+
+
+def trim_automaton(states, leaf_of, trans, finals):
+    """Keeps the productive transitions reachable from the final states."""
+    prod = set(leaf_of.values())
+    changed = True
+    while changed:
+        changed = False
+        for f, args, q in trans:
+            if q not in prod and all(a in prod for a in args):
+                prod.add(q)
+                changed = True
+    trans = [t for t in trans if all(a in prod for a in t[1])]
+    reach = set(q for q in finals if q in prod)
+    todo = list(reach)
+    while todo:
+        q = todo.pop()
+        for f, args, q2 in trans:
+            if q2 == q:
+                for a in args:
+                    if a not in reach:
+                        reach.add(a)
+                        todo.append(a)
+    trans = [t for t in trans if t[2] in reach]
+    leaf_of = {l: q for l, q in leaf_of.items() if q in reach}
+    return leaf_of, trans, sorted(reach & set(finals))
+
+
+def automaton_table(states, leaf_of, trans, finals, flavour):
+    """The rule table (wire of Gram/U.v) of the automaton.  flavour "int": U = state
+    number; "pair": U = (state, state % 2); "ngram": U = (NGram(2, context), state)
+    with the non-terminals expanded top-down as UCFG.from_DFTA_with_ngrams does."""
+    def rules_of(q):
+        rs = {}
+        order = []
+        for l, q2 in leaf_of.items():
+            if q2 == q:
+                rs[l] = [[]]
+                order.append(l)
+        for f, args, q2 in trans:
+            if q2 == q:
+                k = jkey(f)
+                if k not in rs:
+                    rs[k] = []
+                    order.append(k)
+                if args not in rs[k]:
+                    rs[k].append(args)
+        return [[json.loads(k), rs[k]] for k in order]
+
+    if flavour != "ngram":
+        def nt(q):
+            return [states[q], [0, q] if flavour == "int" else [3, [0, q], [0, q % 2]]]
+        table = [[nt(q), [[sym, [[nt(a) for a in alt] for alt in alts]] for sym, alts in rules_of(q)]]
+                 for q in sorted(set(leaf_of.values()) | {t[2] for t in trans})]
+        return table, [nt(q) for q in finals]
+
+    def nt(q, ctx):
+        return [states[q], [3, [4, 2] + ([ctx] if ctx is not None else []), [0, q]]]
+    table = []
+    seen = set()
+    todo = [(q, None) for q in finals]
+    while todo:
+        q, ctx = todo.pop(0)
+        if jkey([q, ctx]) in seen:
+            continue
+        seen.add(jkey([q, ctx]))
+        rs = []
+        for sym, alts in rules_of(q):
+            nalts = []
+            for alt in alts:
+                na = []
+                for i, a in enumerate(alt):
+                    c2 = [3, [5, sym], [0, i]]
+                    na.append(nt(a, c2))
+                    todo.append((a, c2))
+                nalts.append(na)
+            rs.append([sym, nalts])
+        table.append([nt(q, ctx), rs])
+    return table, [nt(q, None) for q in finals]
+
+
+def automaton_run(leaf_of, trans, p):
+    """The state the automaton reaches on the term (None = no run)."""
+    if p[0] == 0:
+        return leaf_of.get(jkey(p[1]))
+    args = [automaton_run(leaf_of, trans, a) for a in p[2:]]
+    if any(a is None for a in args):
+        return None
+    for f, targs, q in trans:
+        if f == p[1] and targs == args:
+            return q
+    return None
+
+
+def automaton_terms(rng, leaf_of, trans, finals, n):
+    """n random terms accepted by the automaton, plus near misses."""
+    def term(q, fuel):
+        opts = [[0, json.loads(l)] for l, q2 in leaf_of.items() if q2 == q]
+        apps = [t for t in trans if t[2] == q]
+        if apps and (not opts or rng.random() < 0.75):
+            f, args, _ = rng.choice(apps)
+            return [1, f] + [term(a, fuel - 1) for a in args]
+        return rng.choice(opts)
+    members = []
+    for _ in range(4 * n):
+        t = term(rng.choice(finals), 4)
+        if t not in members:
+            members.append(t)
+        if len(members) >= n:
+            break
+    leaves = [[0, json.loads(l)] for l in leaf_of]
+    others = []
+    for m in members[:max(3, n // 2)]:
+        if m[0] == 1:
+            q = list(m)
+            i = rng.randrange(2, len(q))
+            q[i] = rng.choice(leaves)                   # replace an argument by a random leaf
+            others.append(q)
+            if len(m) > 3:
+                others.append(m[:2] + m[3:] + [m[2]])   # rotate the arguments
+    out = members + [o for o in others if o not in members]
+    return out
+
+
+def gen_hand_config(rng, tier):
+    flavour = rng.choice(["int", "pair", "ngram", "ngram"])
+    grammars, progs, oracles = [], [], []
+    for gi in range(rng.choice([1, 1, 2])):
+        for _ in range(30):
+            states, leaf_of, trans, finals = gen_automaton(rng, rng.choice([0, 1, 1, 2]))
+            leaf_of, trans, finals = trim_automaton(states, leaf_of, trans, finals)
+            if not finals or not trans:
+                continue
+            table, starts = automaton_table(states, leaf_of, trans, finals, flavour)
+            multi = any(len(alts) > 1 for _, rs in table for _, alts in rs)
+            if (multi or len(starts) > 1) and len(table) <= 40:
+                break
+        else:
+            continue
+        grammars.append([table, starts])
+        progs.append(automaton_terms(rng, leaf_of, trans, finals, 10))
+        oracles.append([[1 if automaton_run(leaf_of, trans, p) in finals else 0 for p in progs[-1]]])
+    if not grammars:
+        return None
+    absfun = rng.choice(["primitive_presence", "identity", "ucfg_bigram", "ucfg_bigram"] if flavour == "ngram"
+                        else ["primitive_presence", "identity", "identity"])
+    absid = {"primitive_presence": 0, "ucfg_bigram": 1, "identity": 2}[absfun]
+    return {"kind": "u-hand-%s-%s" % (flavour, absfun), "gk": "uhand", "data": [grammars, absid, progs], "u": 1,
+            "absfun": absfun, "v": rng.choice([0.05, 0.2, 0.9]), "tvo": rng.choice([0, 1, 1]), "clean": rng.choice([0, 1, 1]),
+            "oracle": [o[0] for o in oracles]}
+
+
+def gen_dfta_config(rng, tier):
+    """Grammar parameters for UCFG.from_DFTA / from_DFTA_with_ngrams of a sharpened
+    depth-bounded CFG (constraint string as in harness/props/c04.py)."""
+    dsl = D.gen_dsl(rng, rng.choice(["F1", "F2", "F2", "F5"]))
+    funs = [p for p in dsl["prims"] if p[1][0] == 1]
+    f = rng.choice(funs)
+    args, _ = D.arrow_parts(f[1])
+    leaves = [p for p in dsl["prims"] if p[1] == args[0]]
+    if leaves:
+        c = rng.choice(leaves)
+        constraint = "(p%d p%d%s)" % (f[0], c[0], " _" * (len(args) - 1))
+    else:
+        constraint = "(p%d%s)" % (f[0], " _" * len(args))
+    ngrams = rng.choice([0, 2, 2])
+    reqs = [dsl["request"]]
+    if rng.random() < 0.4:
+        r = gen_request(rng, dsl)
+        if r not in reqs:
+            reqs.append(r)
+    gps, progs = [], []
+    for r in reqs:
+        md = rng.choice([2, 3, 3])
+        mv = rng.choice([0, 1, 1])
+        gps.append([dsl["prims"], dsl["forbidden"], r, md, mv, 2, [], constraint, ngrams])
+        d2 = dict(dsl)
+        d2["request"] = r
+        d2["const_types"] = []
+        _, ret = D.arrow_parts(r)
+        cands = D.terms(d2, ret, md, rng, 25)
+        seen, uniq = set(), []
+        for c_ in cands:
+            k = json.dumps(c_)
+            if k not in seen:
+                seen.add(k)
+                uniq.append(c_)
+        progs.append(uniq[:25])
+    absfun = rng.choice(["primitive_presence", "identity", "ucfg_bigram", "ucfg_bigram"] if ngrams
+                        else ["primitive_presence", "identity", "identity"])
+    absid = {"primitive_presence": 0, "ucfg_bigram": 1, "identity": 2}[absfun]
+    return {"kind": "u-dfta%s-%s" % ("-ngram" if ngrams else "", absfun), "gk": "udfta", "data": [gps, absid, progs],
+            "u": 1, "absfun": absfun, "v": rng.choice([0.05, 0.2, 0.9]), "tvo": rng.choice([0, 1, 1])}
+
+
+def usable_multi(case, mo):
+    if not in_domain(mo):
+        return False
+    gs = [jkey(guessed_request_from(G, G["starts"][0]["nt"][0])) for G in mo["grammars"]]
+    if len(set(gs)) != len(gs):
+        return False
+    # the generator's own run of the automaton must agree with the model's membership, one derivation each
+    for G, orc in zip(mo["grammars"], case.get("oracle", [])):
+        got = [0 if p is None else 1 for p in G["progs"]]
+        if got != orc or any(p is not None and "deriv" not in p for p in G["progs"]):
+            raise RuntimeError("C19 generator: hand-built automaton and model disagree on membership / unambiguity")
     total = sum(len(G["nts"]) for G in mo["grammars"])
     return 0 < total <= 160 and mo["out_size"] <= 400
 
@@ -402,18 +836,64 @@ def gen(rng, tier):
                 cases.append(cc)
             if len(cases) >= nconf * len(kinds):
                 break
+    # U layers on unambiguous grammars with several alternatives / start symbols
+    nhand, ndfta = (8, 7) if tier == "quick" else (50, 40)
+    hand = []
+    for _ in range(nhand * 4):
+        if len(hand) >= nhand:
+            break
+        c = gen_hand_config(rng, tier)
+        if c is None:
+            continue
+        raw = core.run_model(ID, [(2, c["data"])])[0]
+        if raw == [-1] or raw == [-2]:
+            raise RuntimeError("C19 generator: the model rejected a hand-built table")
+        mo = parse_model_multi(raw)
+        if usable_multi(c, mo):
+            hand.append((c, mo))
+    for c, mo in hand:
+        c.pop("oracle", None)
+        for kind in kinds:
+            cc = dict(c)
+            cc["tkind"] = kind
+            cc["tensor"] = gen_tensor(rng, kind, mo)
+            cases.append(cc)
+    for _ in range(ndfta):
+        c = gen_dfta_config(rng, tier)
+        for kind in kinds:
+            cc = dict(c)
+            cc["tkind"] = kind
+            cc["tensor"] = {"recipe": [kind, rng.randrange(1, 10 ** 9)]}
+            cases.append(cc)
     return cases
 
 
 # ----------------------------------------------------------------------------
 # protocol
 # ----------------------------------------------------------------------------
-def to_model(case):
-    return (1, case["data"])
+def impl_tables(io):
+    return io.get("tables") if isinstance(io, dict) else None
 
 
-def model_obs(case, raw):
-    return closed_forms(case, parse_model(raw))
+def to_model(case, io):
+    """The model calls of a case (MODEL_AFTER_IMPL protocol).  "udfta" grammars are
+    built by the implementation only: the model is run on the tables it serialised."""
+    if not is_multi(case):
+        return [(1, case["data"])]
+    if case["gk"] == "uhand":
+        return [(2, case["data"])]
+    tables = impl_tables(io)
+    if not tables or len(tables) != len(case["data"][2]):
+        return []
+    return [(2, [tables, case["data"][1], case["data"][2]])]
+
+
+def model_obs(case, raws, io):
+    if not raws:
+        return None
+    if not is_multi(case):
+        return closed_forms(case, parse_model(raws[0]))
+    return closed_forms(case, parse_model_multi(raws[0]), case_tensor(case, io))
 
 
 def finite(x):
@@ -429,10 +909,19 @@ def close(a, b, tol):
     return abs(a - b) <= tol * b
 
 
+def table_set(table):
+    return sorted(jkey([nt, sorted(jkey([sym, sorted(jkey(a) for a in alts)]) for sym, alts in rs)]) for nt, rs in table)
+
+
 def compare(case, io, mo):
     """List of (kind, grammar index, item index, text).  Empty = agreement."""
     issues = []
     isu = bool(case["u"])
+    multi = is_multi(case)
+    if isinstance(io, dict) and "skipped" in io:
+        return []          # no grammar was built (empty language, coinciding guessed requests): nothing to compare
+    if mo is None:
+        return [("crash", -1, -1, "no model answer: " + json.dumps(io)[:300])]
     if not in_domain(mo):
         return []          # outside the domain of the property (only reachable by shrinking)
 
@@ -441,6 +930,13 @@ def compare(case, io, mo):
 
     if not isinstance(io, dict) or "layout" not in io:
         return [("crash", -1, -1, json.dumps(io)[:300])]
+    # ---- hand-built tables: the grammar object holds exactly the table of the case ----
+    if multi and case["gk"] == "uhand":
+        for gi, (gw, tw) in enumerate(zip(case["data"][0], io.get("tables", []))):
+            if table_set(gw[0]) != table_set(tw[0]) or sorted(map(jkey, gw[1])) != sorted(map(jkey, tw[1])):
+                bad("table", gi, -1, "UCFG(starts, rules) does not hold the rules / start symbols it was given")
+        if issues:
+            return issues
     # ---- layout ----
     exp_size = mo["u_size"] if isu else mo["out_size"]
     if io["out_size"] != exp_size or io["forward_size"] != exp_size:
@@ -479,9 +975,15 @@ def compare(case, io, mo):
     if len(io["grammars"]) != len(mo["grammars"]):
         return issues + [("crash", -1, -1, "number of grammars")]
     for gi, (go, G) in enumerate(zip(io["grammars"], mo["grammars"])):
-        req = case["data"][0][gi][2]
-        if isu:
-            req = guessed_request(G, req)      # UGrammar rebuilds the request from the variables that occur
+        if multi:
+            tys = {jkey(s_["nt"][0]) for s_ in G["starts"]}
+            if len(tys) != 1:
+                continue       # start symbols of several types: the guessed request depends on a set order
+            req = guessed_request_from(G, G["starts"][0]["nt"][0])
+        else:
+            req = case["data"][0][gi][2]
+            if isu:
+                req = guessed_request(G, req)      # UGrammar rebuilds the request from the variables that occur
         if go.get("treq") != req:
             bad("layout", gi, -1, "type_request %s" % jkey(go.get("treq")))
         if "crash" in go or "nts" not in go:
@@ -496,28 +998,35 @@ def compare(case, io, mo):
             if n[1] != N["key"]:
                 bad("nts", gi, ni, "abstraction of %s: %s" % (jkey(N["nt"]), jkey(n[1])))
                 continue
-            irules = {jkey(r[0]): r for r in n[2]}
-            if sorted(irules) != sorted(jkey(r[0]) for r in N["rules"]) or len(irules) != len(n[2]):
+            # one entry per rule, or per (rule, alternative) for tables with alternatives
+            if multi:
+                ient = [[jkey([r[0], a[0]]), a[1]] for r in n[2] for a in r[1]]
+                ment = [jkey([r[0], r[2]]) for r in N["rules"]]
+            else:
+                if any(len(r[1]) != 1 for r in n[2]):
+                    bad("nts", gi, ni, "several alternatives")
+                    continue
+                ient = [[jkey(r[0]), r[1][0]] for r in n[2]]
+                ment = [jkey(r[0]) for r in N["rules"]]
+            irules = dict(ient)
+            if sorted(irules) != sorted(ment) or len(irules) != len(ient) or len(set(ment)) != len(ment):
                 bad("nts", gi, ni, "rules of %s differ" % jkey(N["nt"]))
                 continue
-            if any(len(r[1]) != 1 for r in n[2]):
-                bad("nts", gi, ni, "several alternatives")
-                continue
             # numeric part
-            ws = [irules[jkey(sym)][1][0] for sym, _ in N["rules"]]
+            ws = [irules[k] for k in ment]
             tol = N["tol"]
             msgs = []
             if not all(finite(w) for w in ws):
                 msgs.append("non-finite weight")
             else:
-                for (sym, _), w, c in zip(N["rules"], ws, N["w"]):
+                for r, w, c in zip(N["rules"], ws, N["w"]):
                     if c is None:
                         continue
                     if not close(w, c, tol):
-                        msgs.append("weight of %s: %r, exact %r" % (jkey(sym), w, c))
+                        msgs.append("weight of %s: %r, exact %r" % (jkey(r[0]), w, c))
                     if c >= TINY and not w > 0:
-                        msgs.append("weight of %s not positive" % jkey(sym))
-                vcw = sorted(w for (sym, _), w in zip(N["rules"], ws) if sym[0] != 0)
+                        msgs.append("weight of %s not positive" % jkey(r[0]))
+                vcw = sorted(w for r, w in zip(N["rules"], ws) if r[0][0] != 0)
                 for w, c in zip(vcw, N["vc"]):
                     if not w > 0:
                         msgs.append("variable/constant weight not positive")
@@ -529,12 +1038,35 @@ def compare(case, io, mo):
                 if N["nprim"] > 0 and N["nv"] + N["nc"] > 0 and abs(sum(vcw) - N["mass_vc"]) > tol:
                     msgs.append("variable+constant mass %r, exact %r" % (sum(vcw), N["mass_vc"]))
             if msgs:
-                bad("weight", gi, ni, "%s: %s" % (jkey(N["nt"]), "; ".join(msgs[:3])))
-        # start symbols
+                pinned = False
+                if N.get("affected") and all(finite(w) for w in ws):
+                    # exactly the weights of the pinned tree (variable mass divided by the number of symbols)?
+                    pinned = all(c is None or close(w, c, tol) for w, c in zip(ws, N["w_pin"])) and \
+                        len(vcw) == len(N["vc_pin"]) and all(abs(w - c) <= 4e-8 + tol * c for w, c in zip(vcw, N["vc_pin"]))
+                bad("weight_valt" if pinned else "weight", gi, ni, "%s: %s" % (jkey(N["nt"]), "; ".join(msgs[:3])))
+        # start symbols: softmax of the start entries of the grammar's start symbols
         st = go.get("starts", [])
-        if [jkey(s[0]) for s in st] != [jkey(G["start"])] or not finite(st[0][1]) or abs(st[0][1] - 1.0) > 1e-6 \
-                or not st[0][1] > 0:
-            bad("starts", gi, -1, "start probabilities %s" % jkey(st)[:200])
+        ist = {jkey(s_[0]): s_[1] for s_ in st}
+        if sorted(ist) != sorted(jkey(s_["nt"]) for s_ in G["starts"]) or len(ist) != len(st):
+            bad("starts", gi, -1, "start symbols %s" % jkey(st)[:200])
+        else:
+            sw = [ist[jkey(s_["nt"])] for s_ in G["starts"]]
+            if not all(finite(w) for w in sw):
+                bad("starts", gi, -1, "start probabilities %s" % jkey(st)[:200])
+            elif len(sw) == 1:
+                if abs(sw[0] - 1.0) > 1e-6 or not sw[0] > 0:
+                    bad("starts", gi, -1, "start probabilities %s" % jkey(st)[:200])
+            else:
+                msgs = []
+                for w, c in zip(sw, G["start_probs"]):
+                    if not close(w, c, G["start_tol"]):
+                        msgs.append("start probability %r, exact %r" % (w, c))
+                    if c >= TINY and not w > 0:
+                        msgs.append("start probability not positive")
+                if abs(sum(sw) - 1.0) > 1e-6:
+                    msgs.append("start probabilities sum to %r" % sum(sw))
+                if msgs:
+                    bad("starts", gi, -1, "; ".join(msgs[:3]))
         # programs
         if len(go["progs"]) != len(G["progs"]):
             bad("member", gi, -1, "number of program answers")
@@ -550,10 +1082,12 @@ def compare(case, io, mo):
             if po[0] == 0:
                 bad("member", gi, pi, "program rejected, in the grammar")
                 continue
+            if "ambiguous" in pm:
+                continue       # several derivations: not an unambiguous grammar, outside the domain
             if po[0] == 2:
                 bad("encode", gi, pi, "raised " + po[1])
                 continue
-            _, marks, enc_ok, lp, pr = po
+            marks, enc_ok, lp, pr = po[1:5]
             if not enc_ok:
                 bad("encode", gi, pi, "encoding is not a 0/1 vector of the output size")
             imarks = sorted(index_of.get(i, "start-entry %d" % i) for i in marks)
@@ -562,20 +1096,42 @@ def compare(case, io, mo):
                 bad("encode", gi, pi, "marked pairs %s, expected %s" % (imarks, mmarks))
             if "prob" not in pm:
                 continue
-            tol = pm["tol"]
-            msgs = []
-            if not finite(lp) or not finite(pr):
-                msgs.append("non-finite log-probability %r / probability %r" % (lp, pr))
-            else:
+            def prog_msgs(exp, consistent):
+                """differences between the implementation's answers for this program and the expected values"""
+                out = []
+                tol, tol_at = pm["tol"], pm["tol_at"]
+                if not finite(lp) or not finite(pr):
+                    return ["non-finite log-probability %r / probability %r" % (lp, pr)]
                 e = math.exp(lp) if lp < 700 else float("inf")
-                if not (abs(e - pr) <= tol * max(e, pr) or (e <= TINY and pr <= TINY)):
-                    msgs.append("exp(log_probability) %r, probability %r" % (e, pr))
-                if not close(pr, pm["prob"], tol):
-                    msgs.append("probability %r, exact %r" % (pr, pm["prob"]))
-                if not close(e, pm["exp_logp"], tol):
-                    msgs.append("exp(log_probability) %r, exact %r" % (e, pm["exp_logp"]))
+                if not close(pr, exp["prob"], tol):
+                    out.append("probability %r, exact %r" % (pr, exp["prob"]))
+                if not close(e, exp["exp_logp"], tol):
+                    out.append("exp(log_probability) %r, exact %r" % (e, exp["exp_logp"]))
+                if consistent and not (abs(e - pr) <= tol * max(e, pr) or (e <= TINY and pr <= TINY)):
+                    out.append("exp(log_probability) %r, probability %r" % (e, pr))
+                if multi and len(po) >= 8:
+                    s0, lp_at, pr_at = po[5:8]
+                    if s0 != G["starts"][pm["start"]]["nt"]:
+                        out.append("derived from start symbol %s, expected %s" % (jkey(s0), jkey(G["starts"][pm["start"]]["nt"])))
+                    elif not finite(lp_at) or not finite(pr_at):
+                        out.append("non-finite log_probability(p, start) %r / probability(p, start) %r" % (lp_at, pr_at))
+                    else:
+                        e_at = math.exp(lp_at) if lp_at < 700 else float("inf")
+                        if not close(pr_at, exp["prob_at"], tol_at) or not close(e_at, exp["exp_logp_at"], tol_at):
+                            out.append("with the start symbol given: exp(log_probability) %r, probability %r, exact %r and %r"
+                                       % (e_at, pr_at, exp["exp_logp_at"], exp["prob_at"]))
+                return out
+
+            msgs = prog_msgs(pm, True)
             if msgs:
-                bad("logprob", gi, pi, "; ".join(msgs[:2]))
+                kind = "logprob"
+                no_start = lambda d: dict(d, exp_logp=d["exp_logp_at"])     # the pinned tree leaves the start tag out
+                if len(G["starts"]) > 1 and not prog_msgs(no_start(pm), False):
+                    kind = "logprob_start"
+                elif "pinned" in pm and (not prog_msgs(pm["pinned"], False) or
+                                         (len(G["starts"]) > 1 and not prog_msgs(no_start(pm["pinned"]), False))):
+                    kind = "logprob_valt"
+                bad(kind, gi, pi, "; ".join(msgs[:2]))
     return issues
 
 
@@ -584,9 +1140,16 @@ def agree(case, io, mo):
 
 
 def nontrivial(case, mo):
+    if mo is None:
+        return False
     keys = len(mo["slices"]) >= 2
     withvar = any(N["nv"] + N["nc"] > 0 for G in mo["grammars"] for N in G["nts"])
-    member = any(p is not None for G in mo["grammars"] for p in G["progs"])
+    member = any(p is not None and "deriv" in p for G in mo["grammars"] for p in G["progs"])
+    if is_multi(case):
+        # a symbol with several alternatives at some non-terminal, or several start symbols
+        alts = any(len([r for r in N["rules"] if r[0] == r0[0]]) > 1 for G in mo["grammars"] for N in G["nts"]
+                   for r0 in N["rules"])
+        return (alts or any(len(G["starts"]) > 1 for G in mo["grammars"])) and member
     return (keys or withvar) and member
 
 
@@ -611,12 +1174,72 @@ def show_sym(s):
 def show_key(k):
     if not k:
         return "None"
-    if isinstance(k[1], int):
+    if len(k) > 1 and isinstance(k[1], int):
         return "(%s,%d)" % (show_sym(k[0]), k[1])
     return "nt" + jkey(k)
 
 
+def show_state(w):
+    """wire form of a grammar state (generic encoder of c04_impl.py) -> text"""
+    if not isinstance(w, list) or not w:
+        return str(w)
+    if w[0] == 0:
+        return str(w[1])
+    if w[0] == 1:
+        return "None"
+    if w[0] == 2:
+        return bytes(w[1:]).decode("utf8", "replace")
+    if w[0] == 3:
+        return "(" + ",".join(show_state(e) for e in w[1:]) + ")"
+    if w[0] == 4:
+        return "[" + ",".join(show_state(e) for e in w[2:]) + "]"
+    if w[0] == 5:
+        return show_sym(w[1])
+    if w[0] == 6:
+        return show_ty(w[1])
+    return jkey(w)
+
+
+def show_unt(x):
+    return "%s:%s" % (show_ty(x[0]), show_state(x[1]))
+
+
+def show_table(table, starts):
+    out = {}
+    for nt, rs in table:
+        out[show_unt(nt) + (" [START]" if nt in starts else "")] = [
+            "%s -> %s" % (show_sym(sym), " | ".join(" ".join(show_unt(a) for a in alt) or "." for alt in alts)) for sym, alts in rs]
+    return out
+
+
+def describe_multi(case, mo):
+    d = {"layer": case["kind"], "variable_probability": case["v"], "total_variable_order": case["tvo"],
+         "tensor_kind": case.get("tkind"), "abstraction": case["absfun"]}
+    if case["gk"] == "uhand":
+        d["clean"] = case.get("clean", 1)
+        d["grammars"] = [show_table(t, st) for t, st in case["data"][0]]
+    else:
+        d["grammars"] = [{"dsl": {S.prim_name(n): show_ty(t) for n, t in g[0]}, "request": show_ty(g[2]), "max_depth": g[3],
+                          "min_variable_depth": g[4], "constraint": g[7],
+                          "builder": "UCFG.from_DFTA_with_ngrams(add_dfta_constraints(cfg, [constraint]), %d)" % g[8] if g[8]
+                          else "UCFG.from_DFTA(add_dfta_constraints(cfg, [constraint]))"} for g in case["data"][0]]
+    d["programs"] = [[P.show_prog(p) for p in pl[:6]] for pl in case["data"][2]]
+    if mo is None:
+        return d
+    t = mo.get("tensor", {"pairs": [], "starts": []})
+    d["tensor"] = [[show_state(k), show_sym(p), v] for k, p, v in t["pairs"]][:40]
+    d["start_entries"] = [[show_state(k), v] for k, v in t["starts"]]
+    d["output_size"] = mo["u_size"]
+    d["non_terminals"] = [len(G["nts"]) for G in mo["grammars"]]
+    d["start_symbols"] = [[[show_unt(s_["nt"]), pr] for s_, pr in zip(G["starts"], G.get("start_probs", []))] for G in mo["grammars"]]
+    d["alternatives"] = [max([len(N["rules"]) - len({jkey(r[0]) for r in N["rules"]}) + 1 for N in G["nts"]] + [1])
+                         for G in mo["grammars"]]
+    return d
+
+
 def describe(case, mo):
+    if is_multi(case):
+        return describe_multi(case, mo)
     gparams = case["data"][0]
     vals = [x[2] for x in case["tensor"]["pairs"]]
     d = {"layer": case["kind"], "variable_probability": case["v"], "total_variable_order": case["tvo"],
@@ -659,7 +1282,95 @@ def shrink(case):
     yield from itertools.islice(_shrink(case), 24)
 
 
+def _shrink_multi(case):
+    gws, absid, progs = case["data"]
+
+    def mk(gp, pr, **kw):
+        c = dict(case)
+        c["data"] = [gp, absid, pr]
+        c.update(kw)
+        return c
+    if len(gws) > 1:
+        for i in range(len(gws)):
+            yield mk(gws[:i] + gws[i + 1:], progs[:i] + progs[i + 1:])
+    for i, pl in enumerate(progs):
+        if len(pl) > 1:
+            h = len(pl) // 2
+            yield mk(gws, progs[:i] + [pl[:h]] + progs[i + 1:])
+            yield mk(gws, progs[:i] + [pl[h:]] + progs[i + 1:])
+    if case["gk"] == "udfta":
+        for i, g in enumerate(gws):
+            if g[3] > 2:
+                yield mk(gws[:i] + [g[:3] + [g[3] - 1] + g[4:]] + gws[i + 1:], progs)
+        if case["tensor"].get("recipe", ["equal"])[0] != "equal":
+            yield mk(gws, progs, tensor={"recipe": ["equal", case["tensor"]["recipe"][1]]})
+        return
+    # hand-built tables: fewer start symbols, fewer alternatives, fewer rules (the table is trimmed again)
+    for i, (table, starts) in enumerate(gws):
+        cands = []
+        if len(starts) > 1:
+            for j in range(len(starts)):
+                cands.append((table, starts[:j] + starts[j + 1:]))
+        for ni, (nt, rs) in enumerate(table):
+            for ri, (sym, alts) in enumerate(rs):
+                if len(alts) > 1:
+                    for ai in range(len(alts)):
+                        rs2 = rs[:ri] + [[sym, alts[:ai] + alts[ai + 1:]]] + rs[ri + 1:]
+                        cands.append((table[:ni] + [[nt, rs2]] + table[ni + 1:], starts))
+                elif len(rs) > 1:
+                    cands.append((table[:ni] + [[nt, rs[:ri] + rs[ri + 1:]]] + table[ni + 1:], starts))
+        for t2, st2 in cands:
+            t3, st3 = trim_table(t2, st2)
+            if t3 and st3:
+                yield mk(gws[:i] + [[t3, st3]] + gws[i + 1:], progs)
+    t = case["tensor"]
+    if "pairs" in t:
+        nz = [k for k, x in enumerate(t["pairs"]) if x[2] != 0.0]
+        if len(nz) > 1:
+            h = len(nz) // 2
+            for part in (nz[:h], nz[h:]):
+                yield mk(gws, progs, tensor={"pairs": [x for k, x in enumerate(t["pairs"]) if k not in part], "starts": t["starts"]})
+        if any(x[1] != 0.0 for x in t["starts"]):
+            yield mk(gws, progs, tensor={"pairs": t["pairs"], "starts": []})
+    if case.get("clean", 1):
+        yield mk(gws, progs, clean=0)
+
+
+def trim_table(table, starts):
+    """productive non-terminals reachable from the start symbols (rules over others are dropped)"""
+    rules = {jkey(nt): rs for nt, rs in table}
+    prod = set()
+    changed = True
+    while changed:
+        changed = False
+        for k, rs in rules.items():
+            if k not in prod and any(all(jkey(a) in prod for a in alt) for _, alts in rs for alt in alts):
+                prod.add(k)
+                changed = True
+    t2 = {}
+    for nt, rs in table:
+        if jkey(nt) not in prod:
+            continue
+        rs2 = [[sym, [alt for alt in alts if all(jkey(a) in prod for a in alt)]] for sym, alts in rs]
+        t2[jkey(nt)] = [nt, [r for r in rs2 if r[1]]]
+    st = [x for x in starts if jkey(x) in t2]
+    reach = set(jkey(x) for x in st)
+    todo = list(reach)
+    while todo:
+        k = todo.pop()
+        for _, alts in t2[k][1]:
+            for alt in alts:
+                for a in alt:
+                    if jkey(a) not in reach:
+                        reach.add(jkey(a))
+                        todo.append(jkey(a))
+    return [t2[jkey(nt)] for nt, _ in table if jkey(nt) in t2 and jkey(nt) in reach], st
+
+
 def _shrink(case):
+    if is_multi(case):
+        yield from _shrink_multi(case)
+        return
     gparams, absid, progs = case["data"]
 
     def mk(gp, pr, tensor=None):
@@ -724,6 +1435,8 @@ def pinned_ok(case, N, rules_impl):
     """The behaviour of the unrepaired code at a non-terminal whose derivable
     rules all underflow: total = 0."""
     isu = bool(case["u"])
+    if is_multi(case):
+        return False
     ws = {jkey(r[0]): r[1][0] for r in rules_impl}
     nv, nc = N["nv"], N["nc"]
     prim = [ws[jkey(sym)] for sym, _ in N["rules"] if sym[0] == 0]
@@ -743,8 +1456,8 @@ def pinned_ok(case, N, rules_impl):
 def start_overflow(case, io, mo, gi):
     """exp() of the raw start entry overflows (or underflows to 0) in float64 and
     the implementation reports a non-finite start probability."""
-    _, sv = tensor_tables(case)
-    z = sv.get(jkey(mo["grammars"][gi]["start_key"]), 0.0)
+    _, sv = tensor_tables(case, mo.get("tensor"))
+    z = sv.get(jkey(mo["grammars"][gi]["starts"][0]["key"]), 0.0)
     st = io["grammars"][gi].get("starts", [])
     return abs(z) > 709.0 and len(st) == 1 and not finite(st[0][1])
 
@@ -752,7 +1465,7 @@ def start_overflow(case, io, mo, gi):
 def classify(case, io, mo):
     """Name of the recorded defect that explains EVERY disagreement of the case, or None."""
     issues = compare(case, io, mo)
-    if not issues:
+    if not issues or mo is None:
         return None
     explained_nts = {}
     for gi, G in enumerate(mo["grammars"]):
@@ -771,6 +1484,16 @@ def classify(case, io, mo):
             if not pinned_ok(case, N, inl[jkey(N["nt"])][2]):
                 return None
             names.add("c19_underflow_nonderivable_max")
+        elif kind in ("weight_valt", "logprob_valt"):
+            # compare() gives these kinds only at / through a non-terminal where a variable or constant has several
+            # alternatives, when the implementation's numbers are exactly those of the pinned tree (variable mass divided
+            # by the number of symbols, one tag per alternative)
+            names.add("c19_variable_alternatives_mass")
+        elif kind == "logprob_start":
+            # compare() gives this kind only when the grammar has several start symbols, probability(p) and the
+            # explicit-start observables agree with the closed forms and exp(log_probability(p)) equals the
+            # closed form WITHOUT the start symbol's probability
+            names.add("c19_logprob_ignores_start")
         elif kind == "logprob":
             pm = mo["grammars"][gi]["progs"][ii]
             if not any(ni in explained_nts.get(gi, ()) for ni in pm.get("visited", [])):
@@ -782,6 +1505,12 @@ def classify(case, io, mo):
 
 
 def theorem_for(case):
+    if is_multi(case):
+        return ("discrete observables: C19_u_layout, C19_u_encode, C19_u_encode_unique, C19_u_start_entries, C19_u_derivations "
+                "(Run/C19.v entry 2 runs the model these are about, on the rule table of the grammar); numeric observables: "
+                "C19_closed_form_alts (one term per (primitive, alternative) in the normaliser), C19_positive, C19_normalised, "
+                "C19_variable_mass, C19_normalised_u, C19_start_softmax, C19_logprob_multi, C19_exp_logprob_multi evaluated in "
+                "60-digit arithmetic (the float32 gap is measured, not proved)")
     return ("discrete observables: C19_layout, C19_encode, C19_encode_vector, C19_start_entries (Run/C19.v runs the model "
             "these are about); numeric observables: C19_closed_form, C19_positive, C19_normalised, C19_variable_mass, "
             "C19_normalised_u, C19_start_normalised, C19_logprob, C19_logprob_u evaluated in 60-digit arithmetic "
